@@ -42,6 +42,8 @@ type cliDeliver struct {
 	Typ    int   `json:"typ"`
 	Serial int   `json:"serial"`
 	Op     uint8 `json:"op"`
+	HType  uint8 `json:"htype"`  // DHCPv4 hardware type of the datagram (0: Ethernet)
+	PadTo  int   `json:"pad_to"` // exact datagram size (0: natural size)
 }
 
 type cliScenario struct {
@@ -53,6 +55,7 @@ type cliScenario struct {
 	Dels        []cliDeliver `json:"deliveries"`
 	CloseAt     int          `json:"close_at"` // odd tick, -1: closed at the end
 	DoubleClose bool         `json:"double_close"`
+	LogDropped  bool         `json:"log_dropped"` // nclient6: WithLogDroppedPackets
 }
 
 type cliResult struct {
@@ -104,7 +107,7 @@ func runCliScenario(t *testing.T, sc cliScenario) cliOutcome {
 			ad = &v6Adapter{}
 		}
 		conn := netsim.New(8192)
-		if err := ad.start(conn, time.Duration(sc.T)*tick, sc.Tries); err != nil {
+		if err := ad.start(conn, time.Duration(sc.T)*tick, sc.Tries, sc.LogDropped); err != nil {
 			panic(err)
 		}
 		type action struct {
@@ -167,7 +170,7 @@ func runCliScenario(t *testing.T, sc cliScenario) cliOutcome {
 			d := d
 			add(d.At, func() {
 				if !closed {
-					conn.Deliver(ad.datagram(d.Kind, d.Xid, d.Typ, d.Serial, d.Op), ad.dest())
+					conn.Deliver(ad.datagram(d.Kind, d.Xid, d.Typ, d.Serial, d.Op, d.HType, d.PadTo), ad.dest())
 				}
 			})
 		}
@@ -232,7 +235,7 @@ func cliHorizon(sc cliScenario) int {
 	end := 1
 	n := sc.Tries
 	if n < 0 {
-		n = 6 // observed window for unlimited tries
+		n = 11 // observed window for unlimited tries (virtual time is free)
 	}
 	for _, c := range sc.Calls {
 		e := c.Start + sc.T*((1<<uint(n))-1) + 2
